@@ -65,6 +65,10 @@ func checkC02(c *Ctx) {
 	c.Rule("C02-R6", "a reslice past a constant prefix is dominated by a successful prefix comparison")
 	c.Rule("C02-R7", "index sites of the parsers and the collect loop are guarded (range index, len guard here or at every caller)")
 	c.Rule("C02-R8", "the wait-for-more gate counts one increment per parser call, each under that parser's 'partial' result")
+	c.Rule("C02-R9", "a parser consumes exactly the bytes it matched: fixed read counts agree with the scan index at the match, countdown loops start at the scan index, prefix loops run to len(P) under HasPrefix(input, P), decoder loops run to nSrc, ReadBytes(d) only where the current byte is d")
+	c.Rule("C02-R10", "an input chunk handed to the parser goroutine over a channel has a backing array allocated for that chunk alone (every cycle through the send passes through the allocation)")
+	c.Expect("C02-R9", 8)
+	c.Expect("C02-R10", 1)
 	c.Expect("C02-R1", 6)
 	c.Expect("C02-R2", 6)
 	c.Expect("C02-R3", 1)
@@ -137,7 +141,9 @@ func checkC02(c *Ctx) {
 		c.Check(bad == "" && ntrue > 0, "C02-R2", name+":complete-consumes", p.pos(pi.fn.Pos()), fmt.Sprintf("%d consumption sites, %d complete-returns %s", len(pi.consume), ntrue, bad))
 		c02Prefix(c, p, pi)
 		c02Index(c, p, pi.fn, parsers)
+		c02Consumption(c, p, pi)
 	}
+	checkChunkOwnership(c, p, "C02-R10")
 	collect := collectLoopFn(p)
 	if collect == nil {
 		c.Undecided("C02-R3", "collect loop", "-", "no function calling three or more parsers found")
